@@ -99,8 +99,33 @@ def render(records, rng, style):
     return lines
 
 
+# call sequences on the SAME DigestionParams objects: "map" = get_peptide_to_protein_map_from_params,
+# "ibaq_num" = get_num_ibaq_peptides_per_protein, "ibaq_map" = get_ibaq_peptide_to_protein_map
+SEQUENCES = [
+    ["ibaq_num", "map"], ["ibaq_map", "map"], ["map", "ibaq_num"], ["map", "ibaq_num", "map"], ["map", "map"],
+    ["ibaq_num", "ibaq_map"], ["ibaq_map", "map", "ibaq_num"], ["map", "ibaq_map", "ibaq_num"],
+]
+# invocations of the digest tool: (name, --peptide_protein_map given, --ibaq_map given)
+TOOL_MODES = [("map", True, False), ("ibaq", False, True), ("both", True, True)]
+NOT_AT_REQUESTED = "parameter objects were rewritten by an earlier call"
+
+
+def counts_of_map(m):
+    """peptide numbers per protein of a peptide -> proteins map (each protein once per peptide)"""
+    c = {}
+    for _, prots in m.items():
+        for q in dict.fromkeys(prots):
+            c[q] = c.get(q, 0) + 1
+    return c
+
+
 class P(Prop):
     id = "C09"
+    # True: a map call on parameter objects that an earlier iBAQ call rewrote must still return the map of the REQUESTED
+    # values.  The tree at HEAD rewrites its arguments in get_ibaq_peptide_to_protein_map (notes/C09.md, round 3), the
+    # property text does not speak about argument objects, so this is recorded (feature "args_rewritten_by=") and every
+    # such call is only required to be a function of the field values it reads (same result on fresh objects).
+    strict_requested_params = False
     quick_cases = 4000
     thorough_cases = 50000
     chunk = 100
@@ -252,6 +277,8 @@ class P(Prop):
             )
         else:
             case.update(kind="params", params=params, ibaq=rng.random() < 0.5, mapfile=rng.random() < 0.4)
+            # call sequences on ONE list of DigestionParams objects (what digest.main and other callers do)
+            case["seq"] = rng.choice(SEQUENCES) if rng.random() < 0.35 else None
         return case
 
     # ------------------------------------------------------------------ implementation
@@ -382,28 +409,94 @@ class P(Prop):
                     out["ibaq"] = {"counts": {k: int(v) for k, v in c.items()}}
                 except (IndexError, AttributeError, KeyError) as e:
                     out["ibaq"] = {"err": self._errname(e)}
-            # --- the map file
+            # --- the digest tool: each output option alone and both in one invocation
             if self._mapfile_applicable(case) and isinstance(out["main"], dict) and "map" in out["main"]:
-                mf = os.path.join(d, "map.tsv")
-                argv = ["digest", "--fasta", *paths, "--peptide_protein_map", mf]
                 ps = case["params"]
-                argv += ["--enzyme", *[p["enzyme"] for p in ps], "--digestion", *[p["digestion"] for p in ps]]
-                argv += ["--min-length", *[str(p["min"]) for p in ps], "--max-length", *[str(p["max"]) for p in ps]]
-                argv += ["--cleavages", *[str(p["mc"]) for p in ps], "--special-aas", *[p["special"] for p in ps]]
+                base = ["digest", "--fasta", *paths]
+                base += ["--enzyme", *[p["enzyme"] for p in ps], "--digestion", *[p["digestion"] for p in ps]]
+                base += ["--min-length", *[str(p["min"]) for p in ps], "--max-length", *[str(p["max"]) for p in ps]]
+                base += ["--cleavages", *[str(p["mc"]) for p in ps], "--special-aas", *[p["special"] for p in ps]]
                 if ps[0]["contains_decoys"]:
-                    argv.append("--fasta_contains_decoys")
-                old = sys.argv
-                sys.argv = argv
-                try:
-                    digest.main(argv[1:])
-                finally:
-                    sys.argv = old
-                with open(mf, "rb") as fh:
-                    text = fh.read().decode("utf-8")
-                back = digest.get_peptide_to_protein_map_from_file(mf, use_hash_key=False)
-                out["mapfile"] = {"text": text, "back": {k: list(v) for k, v in back.items()}}
+                    base.append("--fasta_contains_decoys")
+                tool = {}
+                for name, want_map, want_ibaq in TOOL_MODES:
+                    mf, bf = os.path.join(d, f"map_{name}.tsv"), os.path.join(d, f"ibaq_{name}.tsv")
+                    argv = base + (["--peptide_protein_map", mf] if want_map else []) + (["--ibaq_map", bf] if want_ibaq else [])
+                    old = sys.argv
+                    sys.argv = argv
+                    err = None
+                    try:
+                        digest.main(argv[1:])
+                    except (IndexError, AttributeError, KeyError) as e:
+                        if not want_ibaq:
+                            raise
+                        err = self._errname(e)
+                    finally:
+                        sys.argv = old
+                    r = {}
+                    if want_map and os.path.exists(mf):
+                        with open(mf, "rb") as fh:
+                            text = fh.read().decode("utf-8")
+                        back = digest.get_peptide_to_protein_map_from_file(mf, use_hash_key=False)
+                        r["map"] = {"text": text, "back": {k: list(v) for k, v in back.items()}}
+                    if want_ibaq:
+                        if err is not None or not os.path.exists(bf):
+                            r["ibaq"] = {"err": err or "no_file"}
+                        else:
+                            with open(bf, "rb") as fh:
+                                btext = fh.read().decode("utf-8")
+                            rows = [l.split("\t") for l in btext.split("\r\n")[:-1]]
+                            wellformed = btext.endswith("\r\n") or btext == ""
+                            wellformed = wellformed and all(len(x) == 2 and x[1].isdigit() for x in rows) and len({x[0] for x in rows}) == len(rows)
+                            r["ibaq"] = {"counts": {x[0]: int(x[1]) for x in rows if len(x) == 2 and x[1].isdigit()}, "wellformed": wellformed}
+                    tool[name] = r
+                out["mapfile"] = tool["map"]["map"]
+                out["tool"] = {"ibaq": tool["ibaq"]["ibaq"], "both": {"map": tool["both"].get("map"), "ibaq": tool["both"]["ibaq"]}}
+            # --- call sequences on ONE list of parameter objects
+            if case["kind"] == "params" and case.get("seq") and isinstance(out["main"], dict) and "map" in out["main"]:
+                out["seq"] = self._run_seq(digest, case, paths, fn)
             out["_rec"] = {"items": items}
         return out
+
+    def _run_seq(self, digest, case, paths, fn):
+        """the calls of case["seq"] one after the other on ONE list of DigestionParams objects; per call: the field
+        values the objects had when it started, whether it changed them, its result, and whether the SAME call on fresh
+        objects carrying those field values returns the same (no hidden state)"""
+        import copy
+
+        def snap(ps):
+            return [copy.deepcopy(vars(p)) for p in ps]
+
+        def call(op, ps):
+            try:
+                if op == "map":
+                    res = digest.get_peptide_to_protein_map_from_params(paths, ps, parse_id=fn)
+                    m = res[0] if isinstance(res, tuple) else res
+                    return {"map": {k: list(v) for k, v in m.items()}}
+                if op == "ibaq_num":
+                    return {"counts": {k: int(v) for k, v in digest.get_num_ibaq_peptides_per_protein(paths, ps, parse_id=fn).items()}}
+                res = digest.get_ibaq_peptide_to_protein_map(paths, ps, parse_id=fn)
+                m = res[0] if isinstance(res, tuple) else res
+                return {"counts": counts_of_map(m)}
+            except (IndexError, AttributeError, KeyError) as e:
+                return {"err": self._errname(e)}
+
+        ps = self._mk_params(case)
+        requested = snap(ps)
+        steps = []
+        for op in case["seq"]:
+            before = snap(ps)
+            res = call(op, ps)
+            after = snap(ps)
+            fresh = self._mk_params(case)
+            for p, b in zip(fresh, copy.deepcopy(before)):
+                p.__dict__.clear()
+                p.__dict__.update(b)
+            ref = call(op, fresh)
+            changed = sorted({k for b, a in zip(before, after) for k in set(b) | set(a) if b.get(k) != a.get(k)})
+            steps.append({"op": op, "at_requested": before == requested, "changed_fields": changed, "result": res,
+                          "same_on_fresh_objects": res == ref})
+        return steps
 
     @staticmethod
     def _mapfile_applicable(case):
@@ -456,11 +549,15 @@ class P(Prop):
         if isinstance(impl_out, dict) and "permaps" in impl_out:
             for p in case["params"]:
                 reqs.append({"op": "pepmap", "files": files, "params": [p], "parse_id": case["parse_id"], "lookups": []})
-        if case.get("ibaq"):
+        if self._needs_ibaq(case, impl_out):
             reqs.append({"op": "ibaq", "files": files, "params": case["params"], "parse_id": case["parse_id"]})
         if isinstance(impl_out, dict) and "mapfile" in impl_out:
             reqs.append({"op": "mapfile", "map": [[k, list(v)] for k, v in impl_out["_rec"]["items"]]})
         return reqs
+
+    @staticmethod
+    def _needs_ibaq(case, impl_out):
+        return bool(case.get("ibaq")) or (isinstance(impl_out, dict) and ("tool" in impl_out or "seq" in impl_out))
 
     def model_view(self, case, resp, impl_out):
         out = {}
@@ -486,16 +583,45 @@ class P(Prop):
                     pm.append(m1)
             errs = [x for x in pm if "err" in x]
             out["permaps"] = errs[0] if errs else pm
-        if case.get("ibaq"):
+        mib = None
+        if self._needs_ibaq(case, impl_out):
             c = next(it)
-            out["ibaq"] = {"counts": {k: v for k, v in c["counts"]}} if "counts" in c else c
+            mib = {"counts": {k: v for k, v in c["counts"]}} if "counts" in c else c
+            if case.get("ibaq"):
+                out["ibaq"] = mib
         if isinstance(impl_out, dict) and "mapfile" in impl_out:
             f = next(it)
             if "text" in f:
                 out["mapfile"] = {"text": f["text"], "back": {k: v for k, v in f["back"]} if isinstance(f["back"], list) else f["back"]}
             else:
                 out["mapfile"] = f
+        if isinstance(impl_out, dict) and "tool" in impl_out:
+            # what the tool must write for the REQUESTED parameters, whichever other output it was asked for: the map file of
+            # the map-only invocation (model text of the requested map) and the model's iBAQ numbers
+            mi = dict(mib, wellformed=True) if "counts" in mib else mib
+            out["tool"] = {"ibaq": mi, "both": {"map": out["mapfile"], "ibaq": mi}}
+        if isinstance(impl_out, dict) and "seq" in impl_out:
+            mm = {"map": out["main"]["map"]} if "map" in out["main"] else out["main"]
+            steps = []
+            for st in impl_out["seq"]:
+                if st["op"] == "map":
+                    at = st["at_requested"] or self.strict_requested_params
+                    steps.append({"op": "map", "result": mm if at else NOT_AT_REQUESTED, "same_on_fresh_objects": True})
+                else:  # the iBAQ window is a clamp of the requested one: the same for every earlier iBAQ call
+                    steps.append({"op": st["op"], "result": mib, "same_on_fresh_objects": True})
+            out["seq"] = steps
         return out
+
+    def impl_view(self, case, impl_out):
+        v = super().impl_view(case, impl_out)
+        if isinstance(v, dict) and "seq" in v:
+            v = dict(v)
+            v["seq"] = [
+                {"op": st["op"], "same_on_fresh_objects": st["same_on_fresh_objects"],
+                 "result": st["result"] if (st["op"] != "map" or st["at_requested"] or self.strict_requested_params) else NOT_AT_REQUESTED}
+                for st in v["seq"]
+            ]
+        return v
 
     # ------------------------------------------------------------------ the property
     def _expected(self, case):
@@ -544,6 +670,7 @@ class P(Prop):
         distinct = len(set(ids)) == len(ids)
         has_empty = any(r[1] == "" for r in allrecs)
         main = impl_out["main"]
+        deferred = None  # a (known) finding about the main map does not stop the other statements from being checked
         # --- reading + decoys
         f0 = impl_out["fasta"]
         fdb = case.get("db", "concat")
@@ -570,12 +697,14 @@ class P(Prop):
             if got != want:
                 if got == concat and len(jobs) > len(case["files"]):
                     k = next(k for k in got if got[k] != want[k])
-                    return f"multi-params: peptide {k!r} lists {got[k]} (once per parameter set), the property asks for {want[k]} (each once, database order)"
+                    deferred = f"multi-params: peptide {k!r} lists {got[k]} (once per parameter set), the property asks for {want[k]} (each once, database order)"
+                    got = None
+            if got is not None and got != want:
                 ks = sorted(set(got) | set(want))
                 k = next(k for k in ks if got.get(k) != want.get(k))
                 return f"map entry {k!r}: {got.get(k)} but the proteins whose digestion yields it are {want.get(k)} (database order)"
             # --- lookups
-            for q, l in zip(case["lookups"], main["lookups"]):
+            for q, l in zip(case["lookups"], main["lookups"]) if got is not None else []:
                 if isinstance(l, dict):
                     if all(hashed) or all(plain):
                         return f"get_proteins({q!r}) raised {l['err']}"
@@ -602,8 +731,8 @@ class P(Prop):
                     k = next(k for k in sorted(set(pm["map"]) | set(want)) if pm["map"].get(k) != want.get(k))
                     return f"map of parameter set {pi}, entry {k!r}: {pm['map'].get(k)} but the proteins whose digestion yields it are {want.get(k)}"
         # --- iBAQ
-        if "ibaq" in impl_out and distinct:
-            ib = impl_out["ibaq"]
+        wantc = None
+        if distinct and case["kind"] == "params":
             rules = rule_table()
             wantc = {}
             for pid, seq in allrecs:
@@ -613,16 +742,56 @@ class P(Prop):
                     peps |= digest_spec(seq, max(6, p["min"]), min(30, p["max"]), r["pre"], r["not_post"], r["post"], 0, False, "full")
                 if peps:
                     wantc[pid] = len(peps)
+
+        def ibaq_wrong(ib, where):
             if "err" in ib:
-                return f"iBAQ peptide numbers raised {ib['err']}; expected {wantc}"
+                return f"{where} raised {ib['err']}; expected {wantc}"
             if ib["counts"] != wantc:
                 k = next(k for k in sorted(set(ib["counts"]) | set(wantc)) if ib["counts"].get(k) != wantc.get(k))
-                return f"ibaq: protein {k} has {ib['counts'].get(k)} theoretical peptides, but {wantc.get(k)} distinct fully specific peptides of length 6-30 without missed cleavages"
+                return f"{where}: protein {k} has {ib['counts'].get(k)} theoretical peptides, but {wantc.get(k)} distinct fully specific peptides of length 6-30 without missed cleavages"
+            if ib.get("wellformed") is False:
+                return f"{where}: the file is not one 'protein<TAB>number' row per protein"
+            return None
+
+        if "ibaq" in impl_out and wantc is not None:
+            w = ibaq_wrong(impl_out["ibaq"], "ibaq")
+            if w:
+                return w
         # --- map file
         if "mapfile" in impl_out and "map" in main:
             if impl_out["mapfile"]["back"] != main["map"]:
                 return "the map written by --peptide_protein_map does not read back unchanged"
-        return None
+        # --- the digest tool asked for the iBAQ file alone / for both files in one invocation: each file is the one for
+        #     the REQUESTED parameters (main["map"] has been checked against the independent listing above)
+        if "tool" in impl_out and "map" in main:
+            t = impl_out["tool"]
+            if wantc is not None:
+                w = ibaq_wrong(t["ibaq"], "digest tool, --ibaq_map alone") or ibaq_wrong(t["both"]["ibaq"], "digest tool, --ibaq_map together with --peptide_protein_map")
+                if w:
+                    return w
+            bm = t["both"]["map"]
+            if bm is None:
+                return "digest tool, --peptide_protein_map together with --ibaq_map: no map file written"
+            if bm["back"] != main["map"]:
+                ks = sorted(set(bm["back"]) | set(main["map"]))
+                k = next(k for k in ks if bm["back"].get(k) != main["map"].get(k))
+                return (f"digest tool, --peptide_protein_map together with --ibaq_map: written map entry {k!r} is {bm['back'].get(k)}, "
+                        f"but for the requested digestion parameters it is {main['map'].get(k)} ({len(bm['back'])} / {len(main['map'])} peptides)")
+        # --- call sequences on one list of parameter objects
+        if "seq" in impl_out and "map" in main:
+            for i, st in enumerate(impl_out["seq"]):
+                where = f"call {i} ({st['op']}) of the sequence {case['seq']} on one list of DigestionParams objects"
+                if not st["same_on_fresh_objects"]:
+                    return f"{where} returns another result than the same call on fresh objects with the same field values"
+                if st["op"] == "map":
+                    if (st["at_requested"] or self.strict_requested_params) and st["result"] != {"map": main["map"]}:
+                        extra = "" if st["at_requested"] else f" (fields {impl_out['seq'][i - 1]['changed_fields'] if i else []} were rewritten by an earlier call)"
+                        return f"{where} does not return the map of the requested parameters{extra}"
+                elif wantc is not None:
+                    w = ibaq_wrong(st["result"], where)
+                    if w:
+                        return w
+        return deferred
 
     @staticmethod
     def _all_nonspecific(case):
@@ -676,6 +845,17 @@ class P(Prop):
                 f.append("mapfile_roundtrip")
             if "permaps" in impl_out:
                 f.append("pipeline_maps_per_parameter_set")
+            if "tool" in impl_out:
+                f.append("digest_tool_map_alone+ibaq_alone+both")
+                if impl_out["tool"]["both"]["map"] and impl_out["mapfile"]["back"] != {}:
+                    f.append("digest_tool_both_nonempty_map")
+            for st in impl_out.get("seq", []) if isinstance(impl_out.get("seq"), list) else []:
+                if st["changed_fields"]:
+                    f.append("args_rewritten_by=" + st["op"])
+                if st["op"] == "map" and not st["at_requested"]:
+                    f.append("map_call_on_rewritten_params")
+            if "seq" in impl_out:
+                f.append("seq=" + ">".join(case["seq"]))
             if impl_out.get("fasta", {}).get("err"):
                 f.append("fasta_err=" + impl_out["fasta"]["err"])
         return f
@@ -689,7 +869,7 @@ class P(Prop):
                     c = copy.deepcopy(case)
                     del c["params"][i]
                     yield c
-            for flag in ("ibaq", "mapfile"):
+            for flag in ("ibaq", "mapfile", "seq"):
                 if case.get(flag):
                     c = copy.deepcopy(case)
                     c[flag] = False
